@@ -13,6 +13,15 @@ Proof.
   intros c fs kx area lm k K D D'. apply energy_performance_scale; [exact K| |]; intros cr; now apply dom_data_cols.
 Qed.
 
+(** without a floor on the values (since fix c3bd83b): for every component set with non-negative values *)
+Theorem C11_energy_any_values : forall c fs kx area lm k, 0 < k -> nonneg_data (c_data c) ->
+  energy_performance (comps_scale k c) fs kx area lm =
+  match energy_performance c fs kx area lm with Ok ep => Ok (ep_scale k ep) | Err e => Err e end.
+Proof.
+  intros c fs kx area lm k K Hn. apply energy_performance_scale; [exact K| |]; intros cr; apply nonneg_cols; [exact Hn|].
+  apply nonneg_scale; [|exact Hn]. revert K. generalize k. intros x K. qlra.
+Qed.
+
 (** from the declared components: normalisation commutes with the scaling (the completed productions and the
     reassigned auxiliary components of the scaled building are the scaled ones), so C11_energy applies to what a file
     declares *)
@@ -87,3 +96,4 @@ Print Assumptions C11_carrier_scale.
 Print Assumptions C11_ratios_unchanged.
 Print Assumptions C11_area.
 Print Assumptions C11_normalize_scale.
+Print Assumptions C11_energy_any_values.
